@@ -378,3 +378,37 @@ func symIte(c *smt.Term, a, b value) value {
 	}
 	return mkSym(k, smt.Ite(c, lift(a), lift(b)))
 }
+
+// tokstr is a Go string that is the image gs(bits) of an injective encoding of
+// a 64-bit payload (DESIGN §3.3: GTID text). gs(0) == "", gs(b) == "g<hex>" for
+// b != 0 (the native encoding in verifnd.GTIDString). Supported: equality with
+// other strings; everything else fails closed.
+type tokstr struct{ t *smt.Term }
+
+// tokEq returns x == y where at least one side is a tokstr.
+func tokEq(x, y value) value {
+	tx, okx := x.(tokstr)
+	ty, oky := y.(tokstr)
+	switch {
+	case okx && oky:
+		return boolVal(smt.Eq(tx.t, ty.t))
+	case okx:
+		return tokEqConc(tx, y.(string))
+	case oky:
+		return tokEqConc(ty, x.(string))
+	}
+	panic(engineError{"tokEq"})
+}
+
+func tokEqConc(t tokstr, c string) value {
+	if c == "" {
+		return boolVal(smt.Eq(t.t, smt.BVLit(0, 64)))
+	}
+	if len(c) > 1 && c[0] == 'g' {
+		var u uint64
+		if _, err := fmt.Sscanf(c[1:], "%x", &u); err == nil && u != 0 && fmt.Sprintf("g%x", u) == c {
+			return boolVal(smt.Eq(t.t, smt.BVLit(u, 64)))
+		}
+	}
+	return false
+}
